@@ -25,7 +25,7 @@ ASSUMPTIONS = [
     "Which exception is raised is not compared.",
 ]
 REQUIRED_CLASSES = ["in-order", "misordered", "unknown-name", "ignored-name", "contig-without-data", "cut-inside-group", "last-group-misplaced",
-                    "iter", "pileup", "mask-sum", "compute", "track", "multistream", "forbes-jaccard", "kept-underscore-name"]
+                    "iter", "pileup", "mask-sum", "compute", "track", "multistream", "forbes-jaccard", "kept-underscore-name", "text-typed-contig-column"]
 BOUNDS = {"quick": "genomes of 3 contigs (+1 ignored): every group sequence over 5 labels (326) x 3 chunkings x 7 consumers; 4-contig genomes sampled (600)",
           "thorough": "genomes of up to 4 contigs: every group sequence over 6 labels (1957) x 4 chunkings x 7 consumers; 5000 sampled"}
 BUDGET_S = {"quick": 200, "thorough": 1500}
@@ -75,6 +75,8 @@ def classify(case):
         cl.append("unknown-name")
     if any(g in ignored for g in seq):
         cl.append("ignored-name")
+    if case.get("text_key") and case["consumer"] in ("iter", "multistream"):
+        cl.append("text-typed-contig-column")
     if any("_" in g and g in genome and g not in ignored for g in seq):
         cl.append("kept-underscore-name")
     n_entries = sum(case["sizes"][i % len(case["sizes"])] for i in range(len(seq)))
@@ -113,7 +115,23 @@ def check(case, stats=None):
     table = Interval([r[0] for r in rows], np.array([r[1] for r in rows], dtype=int), np.array([r[2] for r in rows], dtype=int))
     pts = [0] + sorted(set(c for c in case["cuts"] if 0 < c < len(rows))) + [len(rows)]
 
+    text_key = bool(case.get("text_key")) and consumer in ("iter", "multistream")
+    if text_key:
+        # the same entries in a table whose contig column is a text-typed (ragged) field; chunks are built fresh from lists,
+        # the way a file reader hands them out
+        from bionumpy.bnpdataclass import bnpdataclass
+
+        @bnpdataclass
+        class TextInterval:
+            chromosome: str
+            start: int
+            stop: int
+
     def stream(t=table, dc=Interval):
+        if text_key:
+            return NpDataclassStream(iter([TextInterval([r[0] for r in rows[a:b]], np.array([r[1] for r in rows[a:b]], dtype=int),
+                                                        np.array([r[2] for r in rows[a:b]], dtype=int)) for a, b in zip(pts[:-1], pts[1:])]),
+                                     dataclass=TextInterval)
         return NpDataclassStream(iter([t[a:b] for a, b in zip(pts[:-1], pts[1:])]), dataclass=dc)
 
     def genome():
@@ -124,7 +142,7 @@ def check(case, stats=None):
     try:
         if consumer == "iter":
             g = genome()
-            out = list(g._genome_context.iter_chromosomes(stream(), Interval))
+            out = list(g._genome_context.iter_chromosomes(stream(), TextInterval if text_key else Interval))
             names = list(g._genome_context.chrom_sizes)
             if len(out) != len(names):
                 return [Failure("C12:iter-wrong-number-of-contigs", {"expected": names, "n_items": len(out)})]
@@ -302,7 +320,8 @@ def sampled_case(draw):
     sizes = draw(st.lists(st.integers(1, 3), min_size=1, max_size=4))
     n_entries = sum(sizes[i % len(sizes)] for i in range(len(seq)))
     cuts = draw(st.lists(st.integers(1, max(1, n_entries)), max_size=6))
-    return {"genome": genome, "ignored": ignored, "groups": seq, "sizes": sizes, "cuts": cuts, "consumer": draw(st.sampled_from(CONSUMERS))}
+    return {"genome": genome, "ignored": ignored, "groups": seq, "sizes": sizes, "cuts": cuts, "consumer": draw(st.sampled_from(CONSUMERS)),
+            "text_key": draw(st.booleans())}
 
 
 def task_sampled(stats, known_open, n, seed):
